@@ -85,6 +85,14 @@ def plan(tier, base_seed):
             jobs.append({"seed": base_seed * 1000003 + 600000 + i, "cell": c,
                          "fam": "inject_mid"})
             i += 1
+    # TLS 1.3 cells: first record of the previous key epoch replayed right
+    # after a KeyUpdate
+    for c in cells:
+        if tuple(c[1]) == (3, 4):
+            for rep in range(6):
+                jobs.append({"seed": base_seed * 1000003 + 650000 + i,
+                             "cell": c, "fam": "ku_replay"})
+                i += 1
     # forgeries inside the protected part of the handshake, every cell
     for r in range({"quick": 1, "thorough": 20}[tier]):
         for c in cells:
@@ -291,7 +299,8 @@ def run(job, streams=None):
             else 2000
     pre = [1 + ch.draw(60, "cfg.pre") for _ in range(1 + ch.draw(2, "cfg.npre"))]
     ku_at = None
-    if ver == (3, 4) and ch.draw(2, "cfg.ku"):
+    if ver == (3, 4) and (ch.draw(2, "cfg.ku") or
+                          job.get("fam") == "ku_replay"):
         ku_at = 1 + ch.draw(nrec - 1, "cfg.kuat")
     script = app_script(S, R, sizes, ku_at, pre)
 
@@ -321,6 +330,8 @@ def run(job, streams=None):
     kind = WEIGHTED[ch.draw(len(WEIGHTED), "t.kind")]
     if job.get("fam") == "inject_mid":
         kind = "inject_plain"
+    if job.get("fam") == "ku_replay":
+        kind = "cross_epoch"
     t = {"dir": dirn, "kind": kind}
     # never the last record: an honest record must follow so that the
     # receiver is still reading when the forgery arrives
@@ -375,6 +386,22 @@ def run(job, streams=None):
                  (lay[i][0] == 23 or i >= 1) and i < hs_n[dirn]]
         cands = cands[-3:] or [0]
         t["src"] = cands[ch.draw(len(cands), "t.src")]
+        ku_rec = [i for i, r in enumerate(tp0[S][0].records)
+                  if i >= hs_n[dirn] and r[0] == 22]
+        if ku_rec and ku_rec[0] + 1 < len(lay) - 1 and \
+                (ch.draw(2, "t.kuepoch") == 1 or
+                 job.get("fam") == "ku_replay"):
+            # the first record of the PREVIOUS application-key epoch (its
+            # sequence number is 0) replayed as the first record after the
+            # KeyUpdate: a receiver whose new keys lag by one generation
+            # would take it
+            first_app = [i for i, r in enumerate(tp0[S][0].records)
+                         if (r[0] == 23) or (r[0] == 22 and r[4][:1] ==
+                                             b"\x04")]
+            if first_app:
+                t["kind"] = "replay_old_before"
+                t["src"] = first_app[0]
+                tgt = ku_rec[0] + 1
     elif kind == "reflect":
         osrc = list(range(hs_n[other], len(m0.seen[other]))) or [0]
         t["src"] = osrc[ch.draw(len(osrc), "t.src")]
